@@ -71,9 +71,11 @@ Loop(input, st, s, mode) ==
                  [] mode = "arith" -> [st |-> st, s |-> s, mode |-> mode]
                  [] mode = "raw" ->
                       LET isDate == c = "-" /\ LooksLikeDate(s)
+                          \* (a comma that ends the shell word of a root separates it from the next root)
                           stop == ~isDate /\
                                   (IF IsArithChar(st, c) THEN LooksLikeExpression(s)
-                                   ELSE (Len(input) = 1 \/ ~st.psr) /\ (c \in {" ", ","} \/ IsParen(c) \/ IsOpChar(st, c)))
+                                   ELSE \/ (Len(input) = 1 \/ ~st.psr) /\ (c \in {" ", ","} \/ IsParen(c) \/ IsOpChar(st, c))
+                                        \/ c = "," /\ st.psr /\ st.ci + 1 = Len(part))
                       IN IF stop THEN [st |-> st, s |-> s, mode |-> mode] ELSE Loop(input, adv, Append(s, c), mode)
                  [] mode = "undefined" ->
                       LET m == CASE c = " " -> "undefined" [] c = "'" -> "squote" [] c = "\"" -> "dquote" [] c = "`" -> "bquote"
